@@ -487,7 +487,8 @@ func (dp *DPoVP) LoadTopCandidates(blockHash common.Hash) types.DeputyNodes {
 		acc := dp.am.GetAccount(n.GetAddress())
 		candidate := acc.GetCandidate()
 		strID := candidate[types.CandidateKeyNodeID]
-		dn := types.NewDeputyNode(acc.GetVotes(), uint32(i), n.GetAddress(), strID)
+		// The votes must come from the same block as the rank (blockHash). The account manager may have processed the next block already
+		dn := types.NewDeputyNode(n.GetTotal(), uint32(i), n.GetAddress(), strID)
 		result = append(result, dn)
 	}
 	return result
